@@ -19,17 +19,19 @@
 EXTENDS Integers, Sequences, FiniteSets, TLC
 
 CONSTANTS Ids, AVals, BVals,      \* value domains; N stands for NULL
-          MaxOps, WithTxn, WithReopen
+          MaxOps, WithTxn, WithReopen,
+          Configs                 \* names of configurations SetConfig may switch to ({} = no configuration steps)
 N == -99
 
 VARIABLES rows,     \* set of <<id, a, b>>
           tomb,     \* ids deleted at some point (a tombstone may exist in the implementation)
           reop,     \* the database was reopened at least once
           txn,      \* <<>> or the stack of snapshots: BEGIN state, then one per savepoint
+          conf,     \* current configuration (PRAGMA wal / synchronous / wal_autoflush / wal_checkpoint_threshold): invisible to queries (C42)
           nops,
           hist
-vars == <<rows, tomb, reop, txn, nops, hist>>
-view == <<rows, tomb, reop, txn, nops>>
+vars == <<rows, tomb, reop, txn, conf, nops, hist>>
+view == <<rows, tomb, reop, txn, conf, nops>>
 
 Row(i, a, b) == <<i, a, b>>
 Col(r, c) == CASE c = "id" -> r[1] [] c = "a" -> r[2] [] c = "b" -> r[3]
@@ -76,9 +78,10 @@ InsRows == {Row(i, a, b) : i \in Ids, a \in AVals, b \in BVals}
 \* second rows of two-row inserts: a small set that produces every failure kind in second position
 SecondRows == {Row(i, a, b) : i \in {1, 3}, a \in {N, 1}, b \in {0, 5}} \cup {Row(2, 2, N)}
 
-Init == rows = {} /\ tomb = {} /\ reop = FALSE /\ txn = <<>> /\ nops = 0 /\ hist = <<>>
+Init == rows = {} /\ tomb = {} /\ reop = FALSE /\ txn = <<>> /\ conf = "default" /\ nops = 0 /\ hist = <<>>
 
 Step(op, res) == /\ nops' = nops + 1
+                 /\ (op.k # "setconfig" => UNCHANGED conf)
                  /\ hist' = Append(hist, [op |-> op, ok |-> res.ok, n |-> res.n, rows |-> res.rows, intxn |-> txn' # <<>>])
 
 Stmt(op, res) == /\ nops < MaxOps
@@ -97,6 +100,10 @@ Delete  == \E p \in Preds : Stmt([k |-> "delete", p |-> p], DoDelete(rows, p))
 Truncate == txn = <<>> /\ Stmt([k |-> "truncate"], Res(TRUE, Cardinality(rows), {}))
 
 \* stuttering steps on the logical state (C04, C42)
+SetConfig == /\ nops < MaxOps /\ txn = <<>>
+             /\ \E c \in Configs \ {conf} :
+                   /\ conf' = c /\ UNCHANGED <<rows, tomb, reop, txn>>
+                   /\ Step([k |-> "setconfig", c |-> c], Res(TRUE, 0, rows))
 Reopen == /\ WithReopen /\ nops < MaxOps /\ txn = <<>>
           /\ reop' = TRUE /\ UNCHANGED <<rows, tomb, txn>>
           /\ Step([k |-> "reopen"], Res(TRUE, 0, rows))
@@ -126,7 +133,7 @@ Release == /\ Len(txn) >= 2 /\ nops < MaxOps
                  /\ txn' = SubSeq(txn, 1, k - 1) /\ UNCHANGED <<rows, tomb, reop>>
                  /\ Step([k |-> "release", name |-> k - 1], Res(TRUE, 0, rows))
 
-Next == Insert1 \/ Insert2 \/ Update \/ UpdateId \/ Delete \/ Truncate \/ Reopen \/ Checkpoint
+Next == Insert1 \/ Insert2 \/ Update \/ UpdateId \/ Delete \/ Truncate \/ Reopen \/ Checkpoint \/ SetConfig
         \/ Begin \/ Commit \/ Rollback \/ Savepoint \/ RollbackTo \/ Release
 Spec == Init /\ [][Next]_vars
 
